@@ -41,7 +41,7 @@ theorem emitted_strictly_ascending (k k' : CoseKey) (ord : CborOrdering)
     (hx : ∀ p ∈ k.params, ExtraLabel p.1) (hnd : (k.params.map (·.1)).Nodup)
     (h : k.canonicalize ord = .ok k') :
     ∃ L : List (Label × Value), CoseKey.toValue k' = .ok (.map (pairsToValue L)) ∧
-      (L.map (·.1)).Pairwise (fun a b => cmpOf ord a b = .ok .lt) := by
+      (L.map (·.1)).Pairwise (fun a b => cmpOf ord a b = .ok .lt) ∧ ∀ l ∈ L.map (·.1), ValidLabel l := by
   obtain ⟨_, _, _, _, _, hperm⟩ := perm k k' ord h
   have hs := sorted k k' ord h
   have hx' : ∀ p ∈ k'.params, ExtraLabel p.1 := fun p hp => hx p (hperm.subset hp)
@@ -66,7 +66,16 @@ theorem emitted_strictly_ascending (k k' : CoseKey) (ord : CborOrdering)
       | text t => trivial
   cases k' with
   | mk kty kid alg ops biv ps =>
-  refine ⟨keyL kty kid alg ops biv ++ ps, CoseKey.toValue_entries kty kid alg ops biv ps hgood, ?_⟩
+  refine ⟨keyL kty kid alg ops biv ++ ps, CoseKey.toValue_entries kty kid alg ops biv ps hgood, ?_, ?_⟩
+  rotate_left
+  · intro l hl
+    rw [List.map_append, List.mem_append] at hl
+    rcases hl with hl | hl
+    · have := (keyL_labels kty kid alg ops biv).subset hl
+      simp only [keyLabels5, List.mem_cons, List.not_mem_nil, or_false] at this
+      rcases this with rfl | rfl | rfl | rfl | rfl <;> (simp only [ValidLabel, I64, i64Min, i64Max]; omega)
+    · obtain ⟨p, hp, rfl⟩ := List.mem_map.mp hl
+      exact (hx' p hp).1
   rw [List.map_append, List.pairwise_append]
   refine ⟨(typed_sorted ord).sublist (keyL_labels kty kid alg ops biv), ?_, ?_⟩
   · -- the extras: sorted, distinct ⇒ strictly ascending
@@ -91,6 +100,34 @@ theorem emitted_strictly_ascending (k k' : CoseKey) (ord : CborOrdering)
     | lengthFirstLexicographic =>
       simp only [cmpOf]
       rcases ha5 with rfl | rfl | rfl | rfl | rfl <;> exact typed_below_extras_canonical _ (by decide) (by decide) _ hex
+
+/-- the byte-level comparison each ordering stands for (RFC 8949 §4.2.1 bytewise; RFC 7049 §3.9 length-first). -/
+def bytesOrd (ord : CborOrdering) : Bytes → Bytes → Ordering :=
+  match ord with
+  | .lexicographic => lexCmp
+  | .lengthFirstLexicographic => lenLex
+
+theorem cmpOf_bytes (ord : CborOrdering) (a b : Label) (ha : ValidLabel a) (hb : ValidLabel b)
+    (h : cmpOf ord a b = .ok .lt) : bytesOrd ord (encLabel a) (encLabel b) = .lt := by
+  cases ord with
+  | lexicographic =>
+    simp only [cmpOf, bytesOrd] at h ⊢
+    rw [cmp_is_lex a b ha hb] at h; simpa using h
+  | lengthFirstLexicographic =>
+    simp only [cmpOf, bytesOrd] at h ⊢
+    rw [cmp_canonical_is_lenlex] at h; simpa using h
+
+/-- **C20 in the property's own words**: the *encoded keys* of the emitted map are strictly ascending under the chosen byte order. -/
+theorem emitted_strictly_ascending_bytes (k k' : CoseKey) (ord : CborOrdering)
+    (hx : ∀ p ∈ k.params, ExtraLabel p.1) (hnd : (k.params.map (·.1)).Nodup)
+    (h : k.canonicalize ord = .ok k') :
+    ∃ L : List (Label × Value), CoseKey.toValue k' = .ok (.map (pairsToValue L)) ∧
+      (L.map (fun p => encLabel p.1)).Pairwise (fun a b => bytesOrd ord a b = .lt) := by
+  obtain ⟨L, hL, hP, hvalid⟩ := emitted_strictly_ascending k k' ord hx hnd h
+  refine ⟨L, hL, ?_⟩
+  have : (L.map fun p => encLabel p.1) = (L.map (·.1)).map encLabel := by rw [List.map_map]; rfl
+  rw [this, List.pairwise_map]
+  exact hP.imp_of_mem (fun {a b} ha hb hab => cmpOf_bytes ord a b (hvalid a ha) (hvalid b hb) hab)
 
 theorem paramsGood_perm {ps ps' : List (Label × Value)} (hp : ParamsGood ps) (h : ps'.Perm ps) : ParamsGood ps' := by
   have hm : (ps'.map (·.1)).Perm (ps.map (·.1)) := h.map (·.1)
@@ -129,5 +166,6 @@ example : (∀ p ∈ witness2b.params, ExtraLabel p.1) ∧ (witness2b.params.map
 
 #print axioms emitted_strictly_ascending
 #print axioms canonical_fixed
+#print axioms emitted_strictly_ascending_bytes
 
 end Coset.Props.C20
